@@ -190,4 +190,94 @@ theorem truediv (p q : ZPoly) : py_truediv p q = divZ p q := by
       · rfl
   · simp
 
+/-! ### ** -/
+
+theorem foldl_replicate (p : ZPoly) (hc : copyZ p none = p) (m : Nat) :
+    (List.replicate m p).foldl mulZ p = powLoopZ p m := by
+  induction m with
+  | zero => exact hc.symm
+  | succ m ih => rw [List.replicate_succ', List.foldl_append, ih]; rfl
+
+theorem ofPairs_single (k : Int) (v : PyNum) : ofPairs [(k, v)] = [(k, v)] := rfl
+
+theorem mul_fun : py_mul = mulZ := by funext a b; exact mul a b
+
+/-- `Poly.__pow__` with a number exponent.  Hypothesis: `p.copy()` has the same contents as `p` (true of every instance
+    the constructor produced: distinct powers, no stored zero) — the source multiplies copies, the model `p` itself. -/
+theorem pow (p : ZPoly) (n : Int) (ek : ExpKind) (hc : copyZ p none = p) :
+    Py.toPowRes (py_pow p n ek) = powZ p n ek := by
+  unfold py_pow powZ
+  by_cases hn : n = 0
+  · simp [hn, init_num, py_zero, Py.toPowRes]
+  · rw [copy] at *
+    simp only [hn, decide_false, if_false, Bool.false_eq_true]
+    obtain ⟨d, z⟩ := p
+    rcases d with _ | ⟨⟨k, v⟩, _ | ⟨b, t⟩⟩
+    · simp [init_none, py_zero, Py.toPowRes]
+    · cases hv : PyNum.eq v (.int 1)
+      · by_cases hz : n < 0 ∧ v.isZero = true
+        · simp [List.mapM_cons, Py.pow, hv, hz, bind, Except.bind, Py.toPowRes]
+        · simp [List.mapM_cons, Py.pow, hv, hz, bind, Except.bind, pure, Except.pure, Py.toPowRes, py_zero, init_some, ofPairs_single]
+      · simp [List.mapM_cons, hv, bind, Except.bind, pure, Except.pure, Py.toPowRes, py_zero, init_some, ofPairs_single]
+    · cases ek
+      case float => simp [Py.rep, Except.bind, Py.toPowRes]
+      all_goals
+        by_cases h1 : n ≤ 1
+        · have : (n - 1).toNat = 0 := by omega
+          simp [Py.rep, Except.bind, Py.toPowRes, Py.reduceMul, this, h1]
+        · obtain ⟨m, hm⟩ : ∃ m, (n - 1).toNat = m + 1 := ⟨(n - 1).toNat - 1, by omega⟩
+          simp only [Py.rep, Except.bind, Py.toPowRes, Py.reduceMul, hm, h1, if_false, List.replicate_succ, hc]
+          simp [List.foldl_append, mul_fun, foldl_replicate _ hc, powLoopZ]
+
+/-! ### evaluation on a number -/
+
+theorem eq_int0 (v : PyNum) : PyNum.eq v (PyNum.int 0) = v.isZero := by
+  unfold PyNum.eq PyNum.isZero
+  have h1 : (PyNum.int 0).re = 0 := by simp [PyNum.re]
+  have h2 : (PyNum.int 0).im = 0 := rfl
+  rw [h1, h2]
+
+theorem sortDesc_ne_nil {d : MPoly PyNum} (h : d.isEmpty = false) : ∃ a t, sortDesc d = a :: t := by
+  have hl : (sortDesc d).length = d.length := by simp [sortDesc, sortAsc, List.length_mergeSort]
+  cases hs : sortDesc d with
+  | nil => rw [hs] at hl; cases d <;> simp_all
+  | cons a t => exact ⟨a, t, rfl⟩
+
+theorem step_eq (v : PyNum) : (fun (old new : Int × PyNum) =>
+      let x4 := old.1
+      let x5 := old.2
+      let x6 := new.1
+      let x7 := new.2
+      let x8 := (if decide (x4 = (x6 + 1)) then v else (PyNum.powInt v (x4 - x6)))
+      (x6, (x7 + (x5 * x8)))) = hornerStepZ v := by
+  funext old new
+  simp [hornerStepZ]
+
+theorem horner_eq (p : ZPoly) (v : PyNum) (he : p.data.isEmpty = false) :
+    (let x3 := (sortDesc p.data)
+     let t1 := (Py.reduce1 (hornerStepZ v) x3)
+     (t1.2 * (PyNum.powInt v t1.1))) = evalHornerZ p.data v := by
+  obtain ⟨a, t, hs⟩ := sortDesc_ne_nil he
+  simp only [evalHornerZ, hs, Py.reduce1]
+
+theorem direct_eq (d : MPoly PyNum) (v : PyNum) :
+    ((sortAsc d).map (fun kv => (kv.2 * (PyNum.powInt v kv.1)))).foldl (fun acc x => acc + x) (PyNum.int 0) = evalDirectZ d v := by
+  unfold evalDirectZ
+  rw [List.foldl_map]; rfl
+
+theorem call (p : ZPoly) (v : PyNum) (h : Horner) : py_call p v h = callZ p v h := by
+  unfold py_call callZ
+  cases he : p.data.isEmpty
+  · cases hv : v.isZero
+    · cases h
+      · simp only [he, eq_int0, hv, Py.thub, step_eq, Bool.false_eq_true, if_false]
+        cases isPolynomial p.data
+        · simp [direct_eq]
+        · simp only [if_true]; congr 1; exact horner_eq p v he
+      · simp only [he, eq_int0, hv, Py.thub, step_eq, Bool.false_eq_true, if_false]
+        congr 1; exact horner_eq p v he
+      · simp [he, eq_int0, hv, Py.thub, direct_eq]
+    · cases h <;> simp [he, eq_int0, hv, getitem]
+  · cases h <;> simp [he, py_zero]
+
 end ALV.C07.Src
